@@ -163,6 +163,8 @@ def _eval_case(case):
         obs = chk.impl(case)
     except Skip:
         return None
+    except Exception as e:   # the harness could not drive the code: a broken tie, decided by the failing-input search
+        return ({"__exc__": f"{type(e).__name__}: {e}", "tb": traceback.format_exc()[-1500:]}, [], None, ["impl-raised"], None)
     fails = chk.oracle(case, obs)
     try:
         ml = chk.model_lines(case) if chk.has_model else None
@@ -279,6 +281,9 @@ class Runner:
                 if r is None: continue
                 obs, fails, key, brs, ml = r
                 evaluations += 1
+                if isinstance(obs, dict) and "__exc__" in obs:
+                    if len(mismatches) < 5: mismatches.append((case, obs, "<implementation runner raised>"))
+                    continue
                 if key is not None: keys.add(key if isinstance(key, (str, int)) else json.dumps(key, sort_keys=True, default=str))
                 for b in brs: hist[b] = hist.get(b, 0) + 1
                 if len(samples) < 3 or (len(samples) < 6 and rng.chance(0.002)):
